@@ -26,7 +26,7 @@ ASSUMPTIONS = [
     "float32 tolerance: 1e-5 on sums/masses plus 2 ulp of the largest scaled logit magnitude (the representation error of "
     "x/T in float32: 1e-3 at |x/T| ~ 1e4), ties = logits equal after the library's own float32 scaling",
 ]
-REQUIRED_COUNTERS = ["process_logits_calls", "greedy_calls", "sampling_calls", "strategy_step_calls", "shift_pairs"]
+REQUIRED_COUNTERS = ["layout_variant_calls", "float64_calls", "process_logits_calls", "greedy_calls", "sampling_calls", "strategy_step_calls", "shift_pairs"]
 MIN_NONTRIVIAL = {"quick": 200, "thorough": 2000}
 WORKERS = {"quick": 8, "thorough": 16}
 BUDGET_S = {"quick": 300, "thorough": 1500}
@@ -230,6 +230,50 @@ def run_case(ctx, case):
             o = zz.argsort()
             if (pp[o][1:] < pp[o][:-1] - 1e-7).any():
                 viol("order", b, "probabilities of kept actions are not monotone in the logits")
+
+    # ---- the same values in other memory layouts / precisions ----------------------------------
+    # (decoders hand over whatever their last op produced: transposed or strided views, double precision under Float64 runs)
+    if not torch.isnan(lp).any():
+        big = torch.zeros(B, 2 * N)
+        big[:, ::2] = x
+        variants = {"transposed_view": x.t().contiguous().t(), "strided_view": big[:, ::2], "permuted_3d": x.reshape(B, 1, N).expand(B, 2, N).permute(1, 0, 2)[0]}
+        for vn, xv in variants.items():
+            assert torch.equal(xv, x)
+            lpv = D.process_logits(xv, mask.clone(), temperature=T, top_p=p, top_k=k, tanh_clipping=clip)
+            ctx.count("layout_variant_calls")
+            if lpv.shape != lp.shape or not torch.allclose(lpv, lp, rtol=0, atol=1e-6, equal_nan=True) or not torch.equal(lpv > float("-inf"), lp > float("-inf")):
+                bad_rows = torch.nonzero(((lpv > float("-inf")) != (lp > float("-inf"))).any(-1)).flatten().tolist()
+                ctx.violation(dict(sig_base, law="layout_dependent", layout=vn, contiguous=bool(xv.is_contiguous())), f"process_logits gives another distribution for the same logits held in a {vn} (rows with another support: {bad_rows[:4]})",
+                              dict(logits=x[0], mask=mask[0], T=T, top_k=k, top_p=p, clip=clip, lp=lp[0], lp_variant=lpv[0]))
+                break
+        # double precision, values not representable in float32 (distinct within float32 spacing)
+        g64 = torch.Generator().manual_seed(case["s"] + 7)
+        x64 = x.double() + (torch.rand(B, N, generator=g64, dtype=torch.float64) - 0.5) * 1e-9 * x.abs().double().clamp(min=1.0)
+        lp64 = D.process_logits(x64.clone(), mask.clone(), temperature=T, top_p=p, top_k=k, tanh_clipping=clip)
+        ctx.count("float64_calls")
+        z64 = x64.clone()
+        if clip > 0:
+            z64 = torch.tanh(z64) * clip
+        z64 = z64.masked_fill(~mask, float("-inf")) / T
+        for b in range(B):
+            if torch.isnan(lp64[b]).any():
+                ctx.violation(dict(sig_base, law="nan", dtype="float64"), "log-probabilities of float64 logits contain NaN", dict(row=b, logits=x64[b], mask=mask[b], T=T, top_k=k, top_p=p, clip=clip))
+                break
+            if abs(float(lp64[b].exp().sum()) - 1.0) > 1e-6 or bool((lp64[b][~mask[b]] > float("-inf")).any()):
+                ctx.violation(dict(sig_base, law="normalised", dtype="float64"), "float64 logits: distribution not normalised / mass on a masked action", dict(row=b))
+                break
+            keptv = lp64[b] > float("-inf")
+            if not bool((keptv & (z64[b] == z64[b].max())).any()):  # (clipping saturates large scores into ties: any maximiser will do)
+                ctx.violation(dict(sig_base, law="argmax_kept", dtype="float64"), "float64 logits: the most likely feasible action was filtered out", dict(row=b, logits=x64[b], mask=mask[b], top_k=k, top_p=p))
+                break
+            if k > 0 and (p == 0 or p >= 1):
+                # distinct values (clipping may merge some): exactly min(k, #feasible) survive unless values tie after clipping
+                want = min(k, int(mask[b].sum()))
+                vals = torch.sort(z64[b], descending=True).values
+                tie = want < N and vals[want - 1] == vals[min(want, N - 1)] and want < int(mask[b].sum())
+                if not tie and int(keptv.sum()) != want:
+                    ctx.violation(dict(sig_base, law="topk_count", dtype="float64"), f"float64 logits: {int(keptv.sum())} actions kept with top_k={k} and {int(mask[b].sum())} feasible (expected {want})", dict(row=b, logits=x64[b], mask=mask[b]))
+                    break
 
     # ---- greedy / sampling on this distribution ---------------------------------------------
     if not torch.isnan(lp).any():
